@@ -69,6 +69,17 @@ def _job(job) -> List[Dict[str, Any]]:
                                 message="rate(..., limit_sigma=False): a store to a rating is still controlled by the option"))
             else:
                 out.append(dict(inst, verdict="HOLDS", message=""))
+    # ---- R15.4 the resolution must not write the model-level setting back (otherwise "omitting the argument uses the
+    # model's own setting" fails on the next call)
+    wrote = False
+    for ev in oc.I.events:
+        if ev.kind == "write" and ev.data["origin"] == "input:model":
+            m, fn, ln = where(ev)
+            wrote = True
+            out.append(dict(rule="R15.4", verdict="VIOLATED", module=m, function=fn, construct=norm_text(ev.node, 100), line=ln,
+                            message=f"rate stores into the model attribute '{ev.data['field']}': a per-call option changes what later calls without the argument use", detail={"case": case}))
+    if not wrote:
+        out.append(dict(rule="R15.4", verdict="HOLDS", module=mod, function=entry, construct=f"no model attribute is written: {case}", line=line, message="", detail={}))
     # reads of the two model attributes (evidence for 'nothing reads the attribute behind the resolution')
     reads = sorted({(where(ev)[1], ev.data["attr"]) for ev in oc.I.events if ev.kind == "attr-read" and ev.data["origin"] == "input:model" and ev.data["attr"] in OPTS})
     out.append(dict(rule="R15.2", verdict="HOLDS", module=mod, function=entry, construct=f"reads of model tau/limit_sigma: {case}", line=line, message="",
